@@ -728,6 +728,11 @@ func (p *prop) Generate(rng *core.Rand, tier string, emit func(string)) {
 			emit(g.fsCase())
 		}
 	}
+	nfs := 60
+	if tier == "thorough" {
+		nfs = 1500
+	}
+	p.fsScriptCases(g, nfs, emit)
 	for _, m := range []string{"cf", "cf - - -", "cf a,,b -", "cf - gzip;", "cf - match{", "cf - match{a}b", "cf g{ -", "cf - a{b}{c}", "cf x$y -",
 		"fs gzip - 0 - a G ~", "fs gzip zstd 0 - a G ~ -", "fs br - 0 - a G ~ -", "fs gzip - 0 - z G ~ -", "fs gzip - x - a G ~ -", "fs gzip - 0 - a P ~ -",
 		"fs gzip - 0 - a G zz -", "fs gzip - 0 - a G ~ 1-", "fs gzip,gzip - 0 - a G ~ -", "fs gzip - 0 br a G ~ -", "fs gzip - 0 - a G ~ 1-2-3"} {
